@@ -53,6 +53,26 @@ ROUND3_FIX = {
  "C15f": "no mutation touched metadata keys -> 85 adversarial keys (a multi-byte character straddling every cut position 1..80, long, control characters, empty)",
  "C16f": "stdin seeds were always fed through a pipe -> stdin redirected from a regular file, alone and in place",
 }
+ROUND4_FIX = {
+ "C01g": "the CLI round trip never updated in place -> a third clone with --seed-output over a copy whose first and last bytes differ",
+ "C01h": "no clone of C01 met a transfer failure -> HTTP clones with the connection dropped inside the chunk data at 7 positions under a retry budget",
+ "C02h": "sources had at most 3 / 4 chunks: a chunk never occurred in a run AND again later -> seven longer sources with runs and separated repeats of a chunk (also for C06, C13)",
+ "C03g": "in-place moves used chunks of a few bytes -> shifts, a rotation and a swap of whole blocks of 2 MiB + 1 and 3 MiB on a real file",
+ "C04g": "server faults ran with a retry budget of 0 -> every fault also persisting over all further requests under a budget of 2",
+ "C04h": "no server ever went silent -> a body that stalls after one byte under --http-timeout 1",
+ "C05g": "the LD_PRELOAD leg used 64-byte hashes and --buffered-chunks 2 -> scenarios with 4- / 5-byte hashes, a chunk needed twice and 9 / 16 chunks in flight",
+ "C06g": "seeds were regular files or stdin -> the same contents offered as a named pipe and as a loop block device, observed at the logging server",
+ "C08h": "the scripted file applied a seek at once -> it now enforces the AsyncSeek contract (a read before poll_complete returned Ready fails, as tokio::fs::File does)",
+ "C09g": "C09 had no observation of how a clone chunks its seeds / prior output -> differential binary leg: the same bytes as seed file and as prior output must yield the same reuse",
+ "C09h": "(same leg) the reuse found in seed B must not depend on an unrelated seed given before or after it",
+ "C10h": "read scripts had no error answers -> a transient ErrorKind::Interrupted answer in the explicit-state search and in the fragmented-read slice",
+ "C11g": "the change makes the writer non-deterministic (randomly seeded hash map): the schedule explorer took the differing replay for a machinery fault and exited 2 -> a violation is reported when one of three further replays shows the same class; varying outcomes are recorded for C12",
+ "C11h": "the reader's accessors were compared with the decoder for a handful of archives only -> for every archive of the sweep (empty source x truncated hash length included)",
+ "C12h": "the library writer's sink always took whole buffers -> sinks accepting 5 / 1 bytes per write call in the delivery sweep",
+ "C14g": "no cell named the output as a seed -> seed kind 'the output path itself' in the CLI grid (refusal cells)",
+ "C14h": "block devices were always named by their node -> cells with the device behind a symbolic link",
+ "C16g": "compress never started with a stale temp file in C16 -> state 'stale temp file of an interrupted run' in the compress grid",
+}
 # written by the agents, confirmed to change behaviour, but judged NOT to break the property as stated: not kept
 REJECTED = {
  "C13d": "--force-create truncates the prior output before it is scanned: the scan then finds nothing in place, so the statement (about locations the scan found) holds vacuously; the author's own notes say so",
@@ -60,7 +80,7 @@ REJECTED = {
 }
 rows = []
 for pid in [f"C{i:02d}" for i in range(1, 18)]:
-    for v in "abcdef":
+    for v in "abcdefgh":
         d = f"/tmp/seed/{pid}"
         if not os.path.exists(f"{d}/{v}.eval.json"):
             continue
@@ -76,13 +96,14 @@ for pid in [f"C{i:02d}" for i in range(1, 18)]:
         key = f"{pid}{v}"
         fpj = f"{d}/{v}.trial.quick.firstpass.json"
         missed = key in FIRST_PASS_MISSED
-        if v in "cdef" and os.path.exists(fpj):
+        if v in "cdefgh" and os.path.exists(fpj):
             fp = json.load(open(fpj))
             missed = fp.get(pid, {}).get("rc") != 1
             meta["first_pass_checks_commit"] = ("49a2c6c (the checks as they stood before the second round of seeded changes)" if v in "cd"
-                                                else "bcaeac9 (the checks as they stood before the third round of seeded changes)")
+                                                else "bcaeac9 (the checks as they stood before the third round of seeded changes)" if v in "ef"
+                                                else "f656d4f (the checks as they stood before the fourth round of seeded changes)")
         if missed:
-            meta["first_pass"] = "missed by the target property's check; strengthened: " + FIRST_PASS_MISSED.get(key, ROUND2_FIX.get(key, ROUND3_FIX.get(key, "see DESIGN.md section 9")))
+            meta["first_pass"] = "missed by the target property's check; strengthened: " + FIRST_PASS_MISSED.get(key, ROUND2_FIX.get(key, ROUND3_FIX.get(key, ROUND4_FIX.get(key, "see DESIGN.md section 9"))))
         else:
             meta["first_pass"] = "caught by the target property's check as it stood when the change was written"
         json.dump(meta, open(meta_p, "w"), indent=1)
